@@ -249,6 +249,12 @@ class sort_conj(Conv):
         if not t.is_conj():
             return refl(t)
 
+        # bring the members into their final form first, so that sorting and the
+        # true / false / complement tests see what the result will contain
+        pt_members = refl(t).on_rhs(top_sweep_conv(sort_disj()))
+        if pt_members.rhs != t:
+            return pt_members.on_rhs(self)
+
         d_pos = dict()
         d_neg = dict()
         qu = deque([ProofTerm.assume(t)])
